@@ -53,6 +53,9 @@ int libwifi_get_wifi_frame(struct libwifi_frame *fi, const unsigned char *frame,
 
         // Remove the FCS from the end of the frame data, if present
         if (rtap_info.flags & IEEE80211_RADIOTAP_F_FCS) {
+            if (frame_data_len < sizeof(uint32_t)) {
+                return -EINVAL;
+            }
             fi->flags |= LIBWIFI_FLAGS_FCS_PRESENT;
             frame_data_len -= sizeof(uint32_t); // FCS is 4 bytes wide
         }
@@ -60,6 +63,11 @@ int libwifi_get_wifi_frame(struct libwifi_frame *fi, const unsigned char *frame,
         fi->flags |= LIBWIFI_FLAGS_RADIOTAP_PRESENT;
         fi->radiotap_info = malloc(sizeof(struct libwifi_radiotap_info));
         memcpy(fi->radiotap_info, &rtap_info, sizeof(struct libwifi_radiotap_info));
+    }
+
+    // The frame control field must be present before it can be examined
+    if (frame_data_len < sizeof(struct libwifi_frame_ctrl)) {
+        return -EINVAL;
     }
 
     struct libwifi_frame_ctrl *frame_control = (struct libwifi_frame_ctrl *) frame_data;
